@@ -206,7 +206,7 @@ PROPS = {
     'C16': dict(
         level='proof', units=[('V', 'V-DENSE', 'v_dense'), ('V', 'V-SPARSE', 'v_sparse'), ('V', 'V-SPVEC', 'v_spvec'), ('V', 'V-SPMAT', 'v_spmat'), ('V', 'V-DCOUNT', 'v_dcount'), ('V', 'V-DSUBROW', 'v_dsubrow'), ('K', 'K-GF2', None)],
         explanation='the bit-packed dense matrix against the abstract bit array cell(i, j), for all heights and widths: new (all zero), set, get, swap_rows, swap_columns (rows >= hint), add_assign_rows (row xor), '
-                    'resize (shrinking keeps every remaining cell), query_non_zero_columns_into, get_ones_in_column_into (exactly the set cells, increasing), count_ones == number of set cells in the column range (V-DCOUNT: mask and popcount lemmas), get_sub_row_as_octets == the cells right-aligned in u64 words with zero padding on the left (V-DSUBROW); every postcondition speaks about the whole matrix (frame); '
+                    'resize (shrinking keeps every remaining cell), query_non_zero_columns{,_into}, get_ones_in_column{,_into} (exactly the set cells, increasing; the allocating wrappers proved against the _into contracts), count_ones == number of set cells in the column range (V-DCOUNT: mask and popcount lemmas), get_sub_row_as_octets == the cells right-aligned in u64 words with zero padding on the left (V-DSUBROW); every postcondition speaks about the whole matrix (frame); '
                     'word/bit addressing by non-linear lemmas, single-bit updates by bit_vector lemmas. SPARSE matrix: the sparse row SparseBinaryVec (get/insert/remove against its key set, keys strictly increasing, and add_assign -- the two-iterator merge -- == symmetric difference of the key sets, with its `column added` result: V-SPVEC); new (all zero, identity maps), get, set, swap_rows, swap_columns, get_sub_row_as_octets, count_ones (== number of set cells in the range, by a bijection argument over the column permutation), add_assign_rows (row xor: dense tail always, sparse part when start_col == 0, every other row untouched) against the same abstract cell(i, j) for all shapes, every logical/physical row and column permutation and every dense-tail width (V-SPMAT: the same two-method contract new/set that V-AMAT relies on, so the constraint matrix built into a sparse matrix reads back cell by cell like the dense one); the right-aligned dense tail: addressing helpers and hint_column_dense_and_frozen '
                     '(freezing a column keeps every already frozen column, one position further right, also across a word-per-row boundary where the words are re-spaced; unused left bits stay zero).',
         assumptions=['util::get_both_ranges external (contract assumed: two disjoint mutable sub-slices); gf2::add_assign_binary external in V-DENSE, its element-wise xor contract checked BOUNDED by K-GF2 (Kani, dest of 0..6 words)', 'assume_specification for usize::div_ceil and <[T]>::swap', 'Octet equality is structural', 'rule S5 (binary_search on a strictly increasing slice), S6 (v[i].insert(..) through IndexMut; get_both_indices + add_assign as one model call carrying the contract V-SPVEC proves), S7 (unwrap_or_else), X1 (slice iterator as cursor), X2 (match on cmp as if-chain) model/desugaring rules'],
